@@ -63,6 +63,8 @@ func buildStream(name string, cfg *config) (Stream, map[string]string, error) {
 	case name == "builtins":
 		s, sk := buildBuiltins(newEnv(), cfg.tier)
 		return s, sk, nil
+	case name == "typed":
+		return buildTyped(cfg.tier), nil, nil
 	case name == "programs":
 		return buildPrograms(cfg.tier), nil, nil
 	case name == "infix":
@@ -760,8 +762,8 @@ func parentMain(a lib.Args, cfg *config) {
 	out := lib.NewOut(a.Out)
 	out.Rule = "nontrivial = an input whose evaluation reached the generator (model-tie cases); evaluations counts every (input, entry point) run"
 
-	order := []string{"builtins", "forms", "specials", "programs", "infix", "mutants", "tokext", "tokcore"}
-	chunk := map[string]int{"specials": 1, "forms": 1500, "builtins": 800, "programs": 150, "infix": 400, "mutants": 100, "tokext": 8000, "tokcore": 8000}
+	order := []string{"builtins", "forms", "specials", "programs", "typed", "infix", "mutants", "tokext", "tokcore"}
+	chunk := map[string]int{"specials": 1, "forms": 1500, "builtins": 800, "programs": 150, "typed": 150, "infix": 400, "mutants": 100, "tokext": 8000, "tokcore": 8000}
 	inputTimeout := 10 * time.Second
 	if cfg.tier == "thorough" {
 		inputTimeout = 20 * time.Second
@@ -1069,6 +1071,13 @@ func parentMain(a lib.Args, cfg *config) {
 			go func() {
 				defer wg.Done()
 				z := runZygo(cfg, text, 8*time.Second)
+				for _, v := range z {
+					if strings.HasPrefix(v, "TIMEOUT") {
+						// slow under machine load, or really hanging? once more with four times the limit
+						z = runZygo(cfg, text, 32*time.Second)
+						break
+					}
+				}
 				mu.Lock()
 				for k, v := range z {
 					cls := strings.SplitN(v, " ", 2)[0]
